@@ -43,13 +43,6 @@ pub fn ir_token(v: &IrValue, t: &IrType) -> String {
     }
 }
 
-pub struct IrObserved {
-    pub inst: Vec<(IrValue, IrType)>,
-    pub pi: Vec<F>,
-    pub k: u32,
-    pub plain: Bound,
-    pub sat: bool,
-}
 
 pub fn witness_map(w: &[(String, IrValue)]) -> HashMap<&'static str, IrValue> {
     w.iter().map(|(n, v)| (leak(n), v.clone())).collect()
